@@ -2,6 +2,7 @@
 import math
 from fractions import Fraction as F
 
+from .. import proto
 from .. import thr_common as tc
 from ..core import Check, Problem, register
 
@@ -14,7 +15,14 @@ def common_judge(case, o, mo, pid):
     probs = []
     ctx = {"view": None, "m0": None, "m1": None, "i_impl": None, "grid": case["grid"]}
     inq = tc.in_quantifier(case)
+    qline = None
+    if mo and case.get("query"):
+        mo, qline = mo[:-1], mo[-1]          # last line = fit -> predict on the query rows (op thrp.*)
     if "crash" in o:
+        if inq:
+            # inside the quantifier fit / _pmf_predict / predict must succeed: a crash is a violation with this very input
+            return [Problem("property", f"fit / predict crashed although every group has both labels: {o}",
+                            f"{pid}.fit-accepts")], ctx
         return [Problem("correspondence", f"implementation crashed: {o}", f"{pid}.impl-total")], ctx
     if "error" in o:
         if inq:
@@ -58,6 +66,8 @@ def common_judge(case, o, mo, pid):
         if abs(r["p0"] + r["p1"] - 1) > TOL or r["p0"] < -TOL or r["p1"] < -TOL:
             probs.append(Problem("property", f"group {g}: p0={r['p0']} p1={r['p1']} is not a mixture",
                                  "C04.rule-is-mixture"))
+    if case.get("query") and "qpmf1" in o:
+        probs += query_oracle(case, o)
     exs = [view[g]["ex"] for g in gs]
     if max(exs) - min(exs) > TOL:
         probs.append(Problem("property", f"expected {xm} differs between groups: " +
@@ -138,7 +148,74 @@ def common_judge(case, o, mo, pid):
         else:
             probs.append(Problem("correspondence", f"group {g}: implementation rule {ir} vs model rule {mr}",
                                  f"{pid}.rule"))
+    if qline is not None and "qpmf1" in o:
+        probs += query_correspondence(case, o, m1, qline, pid, ctx)
     return probs, ctx
+
+
+def query_oracle(case, o):
+    """PREDICT path, implementation alone: `_pmf_predict` on rows the fit has not seen must be the fitted rule of the
+    row's own group applied to the row's own score (0 for an unseen sensitive-feature value), rows must sum to 1, and
+    `predict(random_state=s)` must be `[p >= u]` for the replayed draws, reproducibly."""
+    probs = []
+    q = case["query"]
+    us = tc.query_draws(case)
+    if len(o["qpmf1"]) != len(q) or len(o["qlabels"]) != len(q):
+        return [Problem("property", f"predict path returned {len(o['qpmf1'])} pmf rows / {len(o['qlabels'])} labels for "
+                        f"{len(q)} query rows", "C04.predict-shape")]
+    for k, (g, s) in enumerate(q):
+        p1, p0 = o["qpmf1"][k], o["qpmf0"][k]
+        want = F(0) if g == -1 else tc.prob_of_rule(o["rules"][str(g)], F(s))
+        if not (math.isfinite(p1) and abs(p1 - float(want)) <= TOL):
+            probs.append(Problem("property", f"query row {k} (group {g}, score {s}): _pmf_predict gives {p1!r}, the fitted rule "
+                                 f"of its group {o['rules'].get(str(g))} gives {float(want)!r}", "C04.pmf-matches-rule"))
+            break
+        if abs(p0 + p1 - 1) > TOL or p1 < -TOL or p1 > 1 + TOL:
+            probs.append(Problem("property", f"query row {k}: pmf row ({p0!r}, {p1!r}) is not a distribution", "C04.pmf-valid"))
+            break
+        lab = 1 if p1 >= float(us[k]) else 0
+        if o["qlabels"][k] != lab:
+            probs.append(Problem("property", f"query row {k}: predict(random_state={case.get('pseed')}) returned "
+                                 f"{o['qlabels'][k]} but P(1)={p1!r} and the draw u={float(us[k])!r} give {lab}",
+                                 "C04.predict-follows-pmf"))
+            break
+    if o["qlabels"] != o["qlabels2"]:
+        probs.append(Problem("property", "predict with the same seed (int / RandomState) is not reproducible",
+                             "C04.predict-follows-pmf"))
+    return probs
+
+
+def query_correspondence(case, o, m1, qline, pid, ctx):
+    """fit -> predict in the Lean model (op thrp.*) vs the implementation, on the query rows"""
+    probs = []
+    q = case["query"]
+    if qline in ("degenerate", "bad-op"):
+        return [tc.model_problem(f"model predict path answered {qline}", pid)]
+    ptok, ltok = qline.split(" ")
+    mp = proto.p_list(ptok)
+    ml = [int(v) for v in ltok.split(",")] if ltok != "-" else []
+    gs, _ = tc.groups_of(case)
+    us = tc.query_draws(case)
+    pos = {g: j for j, g in enumerate(gs)}
+    compared = 0
+    for k, (g, s) in enumerate(q):
+        want = F(0) if g == -1 else tc.prob_of_rule(m1["rules"][pos[g]], F(s))
+        if mp[k] != want:
+            probs.append(tc.model_problem(f"model _pmf_predict of query row {k} is {mp[k]}, its own rule gives {want}", pid))
+            continue
+        if len(ml) == len(q) and ml[k] != (1 if mp[k] >= us[k] else 0):
+            probs.append(tc.model_problem(f"model label of query row {k} is {ml[k]} for p={mp[k]} u={us[k]}", pid))
+        if g != -1 and not tc.same_rule(o["rules"][str(g)], m1["rules"][pos[g]]):
+            continue          # a different (collinear / tie) mixture: compared on the training rows only
+        compared += 1
+        if abs(o["qpmf1"][k] - float(mp[k])) > TOL:
+            probs.append(Problem("correspondence", f"query row {k} (group {g}, score {s}): implementation P(1)="
+                                 f"{o['qpmf1'][k]!r}, model (fit then predict) {float(mp[k])!r}", f"{pid}.predict-vs-model"))
+        elif len(ml) == len(q) and abs(float(mp[k]) - float(us[k])) > 1e-9 and ml[k] != o["qlabels"][k]:
+            probs.append(Problem("correspondence", f"query row {k}: implementation label {o['qlabels'][k]}, model label "
+                                 f"{ml[k]} (p={float(mp[k])!r}, u={float(us[k])!r})", f"{pid}.predict-vs-model"))
+    ctx["query_compared"] = compared
+    return probs
 
 
 def stash_tags(o, ctx):
@@ -148,6 +225,8 @@ def stash_tags(o, ctx):
         t.append("corr:rule-identical-groups")
     if ctx.get("collinear_alt"):
         t.append("corr:collinear-alternative-mixture")
+    if ctx.get("query_compared"):
+        t.append("corr:predict-path-rows-compared")
     m0, m1 = ctx.get("m0"), ctx.get("m1")
     if m0 is not None and m1 is not None:
         t.append("corr:argmax-same-index" if m0["i"] == m1["i"] else "corr:argmax-tie-other-index")
